@@ -355,9 +355,9 @@ def map_eq(a, b_):
     return (a.gs == b_.gs).all() and (a.ps % 4 == b_.ps % 4).all()
 
 
-def c04_group(run, Nmax=2, count=25):
+def c04_group(run, Nmax=2, count=25, big=60):
     rng = np.random.default_rng(run.seed)
-    b = B('N=1: all 24^2 pairs, all inverses, sampled triples; N<=%d: %d random valid maps, pairs and triples' % (Nmax, count))
+    b = B('N=1: all 24^2 pairs, all inverses, sampled triples; N<=%d: %d random valid maps, pairs and triples; %d sparse maps (qubit relabelings + embedded 1-2 qubit maps) on N = 5..12: inverse exists, is two-sided, operand untouched' % (Nmax, count, big))
     for N in range(1, Nmax + 1):
         maps = [CM(g, p) for g, p in all_maps(N, rng, count)]
         ident = ps_.identity_map(N)
@@ -423,6 +423,32 @@ def c04_group(run, Nmax=2, count=25):
             except ValueError:
                 if det_ok:
                     b.fail('z2inv', 'z2inv rejected an invertible matrix', {'m': lst(m)})
+    # larger registers, SPARSE maps (qubit relabelings and small random maps embedded on far-apart qubits): invertible by construction, so
+    # inverse() must not raise, must be two-sided and must not touch its operand; z2inv on large sparse invertible matrices likewise
+    for _ in range(big):
+        N = int(rng.integers(5, 13))
+        perm = rng.permutation(N)
+        gs = np.zeros((2 * N, 2 * N), dtype=np.int64)
+        for q in range(N):
+            gs[2 * q, 2 * perm[q]] = 1
+            gs[2 * q + 1, 2 * perm[q] + 1] = 1
+        m = CM(gs, 2 * gens.bits(rng, 2 * N))
+        for _e in range(int(rng.integers(0, 3))):
+            n_small = int(rng.integers(1, 3))
+            gm, pm = all_maps(n_small, rng, 1)[int(rng.integers(0, 24)) if n_small == 1 else 0]
+            qs = sorted(rng.choice(N, size=n_small, replace=False).tolist())
+            m = m.compose(ps_.identity_map(N).embed(CM(gm, pm), pu.mask(qs, N)))
+        inp = {'N': N, 'gs': lst(m.gs), 'ps': lst(m.ps)}
+        b.case(sample={'N': N, 'kind': 'sparse map'})
+        m0 = (m.gs.copy(), m.ps.copy())
+        ok, inv = guard(b, 'inverse(sparse)', lambda: m.inverse(), inp)
+        if not ok:
+            continue
+        ident = ps_.identity_map(N)
+        if not (map_eq(m.compose(inv), ident) and map_eq(inv.compose(m), ident)):
+            b.fail('inverse_sparse', 'inverse of a sparse map on %d qubits is not a two-sided inverse' % N, inp)
+        if not ((m.gs == m0[0]).all() and (m.ps == m0[1]).all()):
+            b.fail('operand_changed', 'inverse changed its operand', inp)
     return b.result()
 
 
